@@ -1483,6 +1483,131 @@ pub mod verif_hooks {
         out.push(snap(&t, &ptx)?);
         Ok(out)
     }
+
+    fn describe(f: &File) -> String {
+        format!(
+            "id_positive={} name={} gen={} ovr={} checked={:?} changed={:?} failed={:?} stamp={:?} csum={}",
+            f.id > 0,
+            f.name.as_str(),
+            f.is_generated,
+            f.is_override,
+            f.checked_runid,
+            f.changed_runid,
+            f.failed_runid,
+            f.stamp.as_ref().map(|s| s.0.to_string()),
+            f.csum
+        )
+    }
+
+    /// Exercises the record-level functions of `File` (`from_name`, `save`,
+    /// `from_id`, `read_stamp`, `Stamp::detect_override`) on a scratch project
+    /// rooted at the current directory (which must be empty) and returns
+    /// `(step, observed)` pairs for an external harness to compare with what
+    /// those functions are specified to do.
+    pub fn filerec_probe() -> Result<Vec<(String, String)>, RedoError> {
+        use std::os::unix::fs::PermissionsExt;
+        let cwd = std::env::current_dir().map_err(RedoError::opaque_error)?;
+        std::env::set_var("REDO", "1");
+        std::env::set_var("REDO_BASE", &cwd);
+        std::env::set_var("REDO_STARTDIR", &cwd);
+        std::env::remove_var("REDO_RUNID");
+        std::env::remove_var("REDO_TARGET");
+        std::env::remove_var("REDO_PWD");
+        let env = Env::inherit()?;
+        let mut ps = ProcessState::init(env)?;
+        let env = ps.env().clone();
+        let mut out: Vec<(String, String)> = Vec::new();
+        let mut ptx = ProcessTransaction::new(&mut ps, TransactionBehavior::Immediate)
+            .map_err(RedoError::opaque_error)?;
+
+        // record round trip
+        let mut x = File::from_name(&mut ptx, "x", true)?;
+        out.push(("fresh".into(), describe(&x)));
+        x.is_generated = true;
+        x.is_override = true;
+        x.checked_runid = Some(3);
+        x.changed_runid = Some(4);
+        x.failed_runid = Some(5);
+        x.stamp = Some(Stamp::from("1.5-2-3-4-5-6".to_string()));
+        x.csum = "abc".to_string();
+        x.save(&mut ptx)?;
+        out.push(("saved_from_id".into(), describe(&File::from_id(&mut ptx, x.id)?)));
+        out.push(("saved_from_name".into(), describe(&File::from_name(&mut ptx, "x", false)?)));
+        out.push((
+            "same_row_for_dot_slash".into(),
+            (File::from_name(&mut ptx, "./x", true)?.id == x.id).to_string(),
+        ));
+        out.push((
+            "absent_without_add_is_error".into(),
+            File::from_name(&mut ptx, "nope", false).is_err().to_string(),
+        ));
+        let mut y = File::from_name(&mut ptx, "y", true)?;
+        out.push(("second_row_distinct".into(), (y.id != x.id).to_string()));
+        y.is_generated = true;
+        y.changed_runid = Some(9);
+        y.save(&mut ptx)?;
+        out.push(("other_row_untouched".into(), describe(&File::from_id(&mut ptx, x.id)?)));
+        x.is_override = false;
+        x.failed_runid = None;
+        x.stamp = None;
+        x.csum = String::new();
+        x.save(&mut ptx)?;
+        out.push(("cleared_from_id".into(), describe(&File::from_id(&mut ptx, x.id)?)));
+
+        // stamps
+        let stamp_of = |name: &str, ptx: &mut ProcessTransaction| -> Result<Stamp, RedoError> {
+            File::from_name(ptx, name, true)?.read_stamp(&env)
+        };
+        let p = cwd.join("s");
+        out.push(("missing_is_missing".into(), stamp_of("s", &mut ptx)?.is_missing().to_string()));
+        std::fs::write(&p, b"a").map_err(RedoError::opaque_error)?;
+        let t0 = std::time::SystemTime::UNIX_EPOCH + std::time::Duration::from_secs(1_000_000_000);
+        let set_mtime = |p: &std::path::Path, t: std::time::SystemTime| -> Result<(), RedoError> {
+            std::fs::OpenOptions::new()
+                .write(true)
+                .open(p)
+                .and_then(|f| f.set_modified(t))
+                .map_err(RedoError::opaque_error)
+        };
+        set_mtime(&p, t0)?;
+        let s1 = stamp_of("s", &mut ptx)?;
+        out.push(("present_not_missing".into(), (!s1.is_missing()).to_string()));
+        out.push(("unchanged_same_stamp".into(), (stamp_of("s", &mut ptx)? == s1).to_string()));
+        out.push(("unchanged_no_override".into(), (!Stamp::detect_override(&s1, &stamp_of("s", &mut ptx)?)).to_string()));
+        std::fs::write(&p, b"ab").map_err(RedoError::opaque_error)?;
+        set_mtime(&p, t0)?;
+        let s2 = stamp_of("s", &mut ptx)?;
+        out.push(("size_changes_stamp".into(), (s2 != s1).to_string()));
+        out.push(("size_change_is_override".into(), Stamp::detect_override(&s1, &s2).to_string()));
+        set_mtime(&p, t0 + std::time::Duration::from_secs(7))?;
+        let s3 = stamp_of("s", &mut ptx)?;
+        out.push(("mtime_changes_stamp".into(), (s3 != s2).to_string()));
+        out.push(("mtime_change_is_override".into(), Stamp::detect_override(&s2, &s3).to_string()));
+        let mut perm = std::fs::metadata(&p).map_err(RedoError::opaque_error)?.permissions();
+        perm.set_mode(perm.mode() ^ 0o100);
+        std::fs::set_permissions(&p, perm).map_err(RedoError::opaque_error)?;
+        set_mtime(&p, t0 + std::time::Duration::from_secs(7))?;
+        let s4 = stamp_of("s", &mut ptx)?;
+        out.push(("mode_changes_stamp".into(), (s4 != s3).to_string()));
+        let q = cwd.join("s.new");
+        std::fs::write(&q, b"ab").map_err(RedoError::opaque_error)?;
+        std::fs::set_permissions(&q, std::fs::metadata(&p).map_err(RedoError::opaque_error)?.permissions())
+            .map_err(RedoError::opaque_error)?;
+        set_mtime(&q, t0 + std::time::Duration::from_secs(7))?;
+        std::fs::rename(&q, &p).map_err(RedoError::opaque_error)?;
+        let s5 = stamp_of("s", &mut ptx)?;
+        out.push(("inode_changes_stamp".into(), (s5 != s4).to_string()));
+        std::fs::remove_file(&p).map_err(RedoError::opaque_error)?;
+        let s6 = stamp_of("s", &mut ptx)?;
+        out.push(("removed_is_missing".into(), s6.is_missing().to_string()));
+        out.push(("removal_is_override".into(), Stamp::detect_override(&s5, &s6).to_string()));
+        std::fs::create_dir(&p).map_err(RedoError::opaque_error)?;
+        let s7 = stamp_of("s", &mut ptx)?;
+        out.push(("directory_not_missing".into(), (!s7.is_missing()).to_string()));
+        std::fs::write(p.join("inner"), b"z").map_err(RedoError::opaque_error)?;
+        out.push(("directory_stamp_stable".into(), (stamp_of("s", &mut ptx)? == s7).to_string()));
+        Ok(out)
+    }
 }
 
 #[cfg(test)]
